@@ -12,6 +12,7 @@ From FB.Proofs Require Import FrameLaws CleanLaws.
 (* T1g: Model/BuildDirs.v and Model/CreatedFiles.v are equal to the translation of build_dirs.py / created_files.py
    (Gen/BookGen.v, regenerated on every run); a change of those sources that the model does not follow breaks this import *)
 From FB.Proofs Require BookGenLaws.
+From FB.Proofs Require DriverGenLaws.   (* T1g: _build, _roll_back, _commit, clean, _make_dirs, _make_room, FileBackups = Model/Build.v, Builder.v (Gen/DriverGen.v) *)
 Import ListNotations.
 
 (* A regular file other than the cache file, the paths passed to build_file in this build (P: any set
